@@ -161,8 +161,8 @@ theorem age_max_of_no_date (g : Glue) (now : Int) (e : Entry) (hT : TimesOK e)
   rw [age_eq g now e hT]
   unfold Spec.currentAge
   simp only [Spec.storedOfEntry, hd]
-  have h0 : sat (((Spec.deltaSeconds (Header.get e.resp.header sAge)).getD 0) + max 0 (sat (e.receivedAt - e.requestedAt))) ≤ maxI64 := sat_le_max _
-  have h1 : max maxI64 (sat (((Spec.deltaSeconds (Header.get e.resp.header sAge)).getD 0) + max 0 (sat (e.receivedAt - e.requestedAt)))) = maxI64 := by omega
+  have h0 : sat (((Spec.deltaSeconds (firstListMember (Header.values e.resp.header sAge))).getD 0) + max 0 (sat (e.receivedAt - e.requestedAt))) ≤ maxI64 := sat_le_max _
+  have h1 : max maxI64 (sat (((Spec.deltaSeconds (firstListMember (Header.values e.resp.header sAge))).getD 0) + max 0 (sat (e.receivedAt - e.requestedAt)))) = maxI64 := by omega
   rw [h1]
   apply sat_of_ge_max
   have : 0 ≤ max 0 (sat (now - e.receivedAt)) := by omega
